@@ -95,6 +95,12 @@ func dsnValue(rng *rand.Rand, unicode bool) string {
 		if unicode && rng.Intn(5) == 0 {
 			rs := []rune("äßπ漢字😀éÑ")
 			sb.WriteRune(rs[rng.Intn(len(rs))])
+		} else if unicode && rng.Intn(12) == 0 {
+			// neither quotes, backslashes nor control characters (category Cc), but not "printable" for
+			// Go's %q: no-break space, zero width space, soft hyphen, line separator, ideographic space,
+			// byte order mark, an unassigned code point, a private use one, the last code point
+			rs := []rune{0x00A0, 0x200B, 0x00AD, 0x2028, 0x3000, 0xFEFF, 0x0378, 0xE000, 0x10FFFF}
+			sb.WriteRune(rs[rng.Intn(len(rs))])
 		} else {
 			sb.WriteByte(dsnAlpha[rng.Intn(len(dsnAlpha))])
 		}
@@ -149,6 +155,9 @@ func dsnMain(args []string) error {
 			if rng.Intn(25) == 0 {
 				key = dsnUnknown[rng.Intn(len(dsnUnknown))]
 			}
+			if rng.Intn(60) == 0 {
+				key = "" // the empty key matches no field
+			}
 			if strings.Contains(key, " ") {
 				key = "bogus"
 			}
@@ -165,6 +174,10 @@ func dsnMain(args []string) error {
 				val = strconv.Itoa(rng.Intn(2000) - 1000)
 			default:
 				val = dsnValue(rng, true)
+				if kind == "" && rng.Intn(2) == 0 {
+					// a key that matches no field, with a value every field kind would take
+					val = []string{"1", "0", "true"}[rng.Intn(3)]
+				}
 			}
 			_ = canon
 			q := ""
@@ -234,7 +247,7 @@ func dsnMain(args []string) error {
 		text := fmt.Sprintf("ase://u:p@h:1/?%s=%s&%s=%s", k, v1, k, v2)
 		unknown := rng.Intn(6) == 0
 		if unknown {
-			text += "&nosuchkey=1"
+			text += []string{"&nosuchkey=1", "&=1", "&nosuchkey=1", "&Opt=1"}[rng.Intn(4)]
 		}
 		t := &dsnT{}
 		st := safeCall(func() error { return dsn.Parse(text, t) })
